@@ -149,12 +149,12 @@ func init() {
 		"sort.Strings": inSortStrings,
 		"sort.Slice":   inSortSlice,
 
-		"(*sync.Mutex).Lock":      inNop,
-		"(*sync.Mutex).Unlock":    inNop,
-		"(*sync.RWMutex).Lock":    inNop,
-		"(*sync.RWMutex).Unlock":  inNop,
-		"(*sync.RWMutex).RLock":   inNop,
-		"(*sync.RWMutex).RUnlock": inNop,
+		"(*sync.Mutex).Lock":      func(fr *frame, a []value) value { fr.i.lockOp(a[0], lockExcl, true); return nil },
+		"(*sync.Mutex).Unlock":    func(fr *frame, a []value) value { fr.i.lockOp(a[0], lockExcl, false); return nil },
+		"(*sync.RWMutex).Lock":    func(fr *frame, a []value) value { fr.i.lockOp(a[0], lockExcl, true); return nil },
+		"(*sync.RWMutex).Unlock":  func(fr *frame, a []value) value { fr.i.lockOp(a[0], lockExcl, false); return nil },
+		"(*sync.RWMutex).RLock":   func(fr *frame, a []value) value { fr.i.lockOp(a[0], lockShared, true); return nil },
+		"(*sync.RWMutex).RUnlock": func(fr *frame, a []value) value { fr.i.lockOp(a[0], lockShared, false); return nil },
 		"(*sync.Once).Do":         inOnceDo,
 		"(*sync.Pool).Get":        inPoolGet,
 		"(*sync.Pool).Put":        inPoolPut,
@@ -873,6 +873,10 @@ func inOnceDo(fr *frame, a []value) value {
 		return nil
 	}
 	s[0] = true
+	if fr.i.race != nil {
+		fr.i.race.paused++
+		defer func() { fr.i.race.paused-- }()
+	}
 	call(fr.i, fr, token.NoPos, a[1], nil)
 	return nil
 }
